@@ -13,6 +13,8 @@ property oracles evaluated directly on the implementation):
   posteriors  GMM.likelihood / mixture_likelihood / pop / map_label, GGM & GGGM posterior and
               Estep, VonMisesMixture.responsibilities, Segmentation.normalized_external_field
               and map_from_ppm.
+  segfit      Segmentation.vm_step vs SegModel.vm_class (weighted mean / centred scatter / Z floor read from the source),
+              equivariance oracles; normalized_external_field (whole matrix) vs SegModel.nef_matrix.
   gauss       GMM.unweighted_likelihood vs unweighted_likelihood_ vs scipy multivariate_normal;
               exact quadratic forms; diag M-step; equivariances; BIC; bgmm density helpers.
 """
@@ -1808,7 +1810,9 @@ def run(ck):
         "distinct by all array bytes. posteriors: dyadic likelihood matrices incl. rows below the 1e-15 floor; GMMs with "
         "dims 1..4, k 1..6, integer means, precisions L L^T / integer diag, power-of-two weights, duplicated components "
         "(ties), outliers at 1000+; GGM/GGGM with integer parameters and far points; vMF precisions 0.5..2000; "
-        "2x2x2 segmentations with 1-2 channels")
+        "2x2x2 segmentations with 1-2 channels, one outlier voxel at 24..2e4 class sd, masks, beta 0 / > 0; "
+        "segfit: Segmentation.vm_step on grids 2x2x2..2x3x2, 1-3 channels, 1-3 classes, dyadic data, k/16 posterior maps, "
+        "classes of population 0, per-channel translations / power-of-two scalings, relabelling, freeze")
     ck.trust.append("oracle contracts: exp(x) >= 0 (ve_step, normalized_external_field), exp(0) = 1 (normalized_external_field), "
                     "exp(x) > 0 (vMF; violated in floating point only by overflow, reported as a finding); densities fed to the "
                     "posterior models are the implementation's own _gam_dens/_gaus_dens/unweighted_likelihood values")
